@@ -5,7 +5,7 @@ PLAN = {
     # per case) recycles freed memory at once, so behaviour that depends on where objects happen to be allocated shows up
     # (under ASan freed memory is quarantined and address order rarely changes). Budgets are case counts.
     "quick": [replays("C12", prefix="C12-known-"), replays("C12", flavour="plain", prefix="C12-plain-", name="replays:C12:plain"),
-              tape("C12", 1600, size=1500, case_timeout=300), tape("C12", 3200, size=1500, flavour="plain", case_timeout=300, name="C12:rc:plain", seed_offset=500)],
+              tape("C12", 1200, size=1500, case_timeout=300), tape("C12", 2400, size=1500, flavour="plain", case_timeout=300, name="C12:rc:plain", seed_offset=500)],
     "thorough": [replays("C12", prefix="C12-known-"), replays("C12", flavour="plain", prefix="C12-plain-", name="replays:C12:plain"),
                  tape("C12", 30000, size=2000, case_timeout=300), tape("C12", 60000, size=2000, flavour="plain", case_timeout=300, name="C12:rc:plain", seed_offset=500)],
     "class_floors": {"probe:parse": 0.08, "probe:print": 0.06, "probe:validate": 0.04, "probe:analyse": 0.08, "probe:generate": 0.03, "probe:resolve": 0.03, "probe:flatten": 0.04,
